@@ -1,4 +1,5 @@
 """C04 Quantification, restriction, apply-and-quantify, substitution: wiring and dualisation tables"""
+import eunits
 import ewrap
 import kinds
 
@@ -15,5 +16,8 @@ def run(ctx):
                 "of the quantified variable. restrict_edge passes (root, vars) in order.")
     kinds.wrappers(ctx, F, "bdd", [kinds.BFQ, kinds.BF], 30)
     kinds.wrappers(ctx, F, "bcdd", [kinds.BFQ, kinds.BF], 30)
+    ctx.explain("E-UNITS: no variable number meets a level number (both are u32) in the rules crate(s).")
+    nfn, _ = eunits.run(ctx, F, crates=("oxidd_rules_bdd",))
+    ctx.floor("E-UNITS", "function bodies analysed", nfn, 100)
     ctx.not_decided = ("correctness of the recursion (set_pop, level skipping), restrict's polarity walk, "
                        "simultaneity of substitution")
